@@ -2,6 +2,7 @@ import NdonnxVerif.Driver.Dtype
 import NdonnxVerif.Driver.Heap
 import NdonnxVerif.Driver.Scalar
 import NdonnxVerif.Driver.Reduce
+import NdonnxVerif.Driver.Layout
 import NdonnxVerif.Driver.Index
 /-! Line-protocol driver: one request per line on stdin, one answer per line on stdout. -/
 open Ndx.Drv
@@ -11,6 +12,8 @@ def dispatch (line : String) : String :=
   | [] => "bad-op"
   | cmd :: args =>
     match cmd with
+    | "roll" => cmdRoll args
+    | "flip" => cmdFlip args
     | "reduce_shape" => cmdReduceShape args
     | "proto" => cmdProto args
     | "heap" => cmdHeap args
